@@ -53,6 +53,8 @@ type Step struct {
 	Slot     int           // lock handle slot used by lock/unlock/lease of this client
 	Num      bool          // the key holds a number: Get's value is compared numerically
 	Float    bool
+	DTTL     time.Duration // default TTL of the DMap the scenario runs on
+	Keys     []string      // mdel: the keys named by one multi-key Delete
 }
 
 // Script is what one client does.
@@ -118,11 +120,29 @@ func ttlOf(o PutOpts, r *Recorder) (int, bool) {
 }
 
 func (r *Recorder) step(ctx context.Context, dm string, sc Script, st Step, slots map[int]*lockSlot) {
-	inv := trace.Ev{"t": "inv", "c": sc.Client, "k": st.Key, "path": sc.Path.Name()}
+	inv := trace.Ev{"t": "inv", "c": sc.Client, "k": st.Key, "path": sc.Path.Name(), "dttl": int(st.DTTL.Milliseconds())}
 	var rep Reply
+	if st.Op == "mdel" {
+		// one multi-key Delete: every named key gets the invocation and the reply (count) in its own history
+		for _, k := range st.Keys {
+			r.append(trace.Ev{"t": "inv", "c": sc.Client, "k": k, "path": sc.Path.Name(), "op": "del", "nkeys": len(st.Keys)})
+		}
+		rep = sc.Path.Delete(ctx, dm, st.Keys...)
+		for _, k := range st.Keys {
+			res := trace.Ev{"t": "res", "c": sc.Client, "k": k, "ret": rep.Ret, "v": "", "n": rep.N}
+			if rep.Ret == "err" {
+				res["detail"] = rep.Err
+			}
+			r.append(res)
+		}
+		return
+	}
 	switch st.Op {
 	case "put":
 		ttl, abs := ttlOf(st.Opts, r)
+		if ttl == 0 && st.DTTL > 0 {
+			ttl = int(st.DTTL.Milliseconds()) // a plain Put falls back to the DMap's default TTL
+		}
 		inv["op"], inv["v"], inv["nx"], inv["xx"], inv["ttl"], inv["abs"] = "put", st.Val, st.Opts.NX, st.Opts.XX, ttl, abs
 		inv["mode"] = st.Opts.Mode
 		r.append(inv)
@@ -302,6 +322,28 @@ func Emit(w *trace.Writer, hs []*History, seq *int, meta trace.Ev) {
 		for k, v := range meta {
 			head[k] = v
 		}
+		// every invocation carries the duration of its operation (known once it returned): an
+		// expiry that an operation re-installs (Incr keeps the ttl) may shift by at most that much
+		last := map[string]trace.Ev{}
+		paths := map[string]bool{}
+		for _, e := range h.Events {
+			c := e["c"].(string)
+			if e["t"] == "inv" {
+				e["dur"] = 0
+				last[c] = e
+				if p, ok := e["path"].(string); ok {
+					paths[p] = true
+				}
+			} else if inv, ok := last[c]; ok {
+				inv["dur"] = e["ts"].(int) - inv["ts"].(int)
+			}
+		}
+		var ps []string
+		for p := range paths {
+			ps = append(ps, p)
+		}
+		sort.Strings(ps)
+		head["paths"] = ps
 		w.Emit(head)
 		for _, e := range h.Events {
 			w.Emit(e)
